@@ -25,8 +25,8 @@ NONTRIVIAL_FLOOR = {"quick": 300, "thorough": 5000}
 
 KINDS = ["call", "agg", "call_other", "peer", "fp", "expr_fp", "bound_fp", "map", "filter", "sort", "unique", "foreach", "catch", "catch",
          "init", "id", "create", "mod", "catch_tell", "implode_fp"]
-SITES = ["error", "throw", "div0", "type", "bounds", "badarg", "deep", "evalcost", "callother0", "sscanf"]
-UNCATCHABLE = {"deep", "evalcost"}
+SITES = ["error", "throw", "div0", "type", "bounds", "badarg", "deep", "evalcost", "callother0", "sscanf", "deepmiss"]
+UNCATCHABLE = {"deep", "evalcost", "deepmiss"}
 EXPECT = {"error": "boom", "div0": "ivision", "type": "", "bounds": "ounds", "badarg": "ad argument", "callother0": "", "sscanf": "", "inject": "injected fault"}
 
 MAIN = r'''
@@ -37,6 +37,10 @@ mixed *caught = ({ });
 void create() { seteuid(getuid()); }
 mixed step(int i);
 mixed hook() { return step(level + 1); }           // re-entry point for applies made by efuns
+// "deepmiss": the call that runs out of call depth is a call_other whose name is not in the apply cache yet, after the cache
+// was filled with entries for names nothing else refers to
+void fill() { int i; for (i = 0; i < 6000; i++) call_other(this_object(), "nf_" + i); }
+DMCHAIN
 mixed fail() {
   mixed a = 1, b = ({ });
   switch (site) {
@@ -50,6 +54,7 @@ mixed fail() {
   case "callother0": return call_other(zero, "x");
   case "sscanf": return sscanf(a, b);
   case "deep": return fail();
+  case "deepmiss": fill(); return dm0();
   case "evalcost": while (1) a++;
   }
   return 0;
@@ -103,6 +108,7 @@ mixed probe() {
   // a fixed evaluation touching calls, catch, containers, load and destruct: must behave as in a fresh driver
   mixed e, r;
   object o;
+  fill();                        // every slot of the apply cache is looked at again
   "/t/c05hookctl"->arm("");      // a hook armed by the failed evaluation is one of its legitimate side effects: disarm
   e = catch(error("probe\n"));
   o = new("/t/c05thing");
@@ -111,6 +117,7 @@ mixed probe() {
   return r;
 }
 '''
+MAIN = MAIN.replace("DMCHAIN", "\n".join('mixed dm%d() { return call_other(this_object(), "dm%d"); }' % (i, i + 1) for i in range(120)) + "\nmixed dm120() { return 1; }")
 PEER = 'void create() { seteuid(getuid()); }\nmixed relay() { return "/t/c05"->hook(); }\n'
 HOOKCTL = 'void create() { seteuid(getuid()); }\nstring armed = "";\nvoid arm(string h) { armed = h; }\nint take(string h) { if (armed != h) return 0; armed = ""; return 1; }\n'
 ROOM = 'void create() { seteuid(getuid()); }\nvoid init() { if ("/t/c05hookctl"->take("init")) "/t/c05"->hook(); }\n'
@@ -303,7 +310,7 @@ _probe = {}
 def get_worker(ctx):
     w = _workers.get(ctx.rundir)
     if w is None:
-        w = Worker(ctx.scratch("w"), timeout=20, mudlib_files=FILES, conf={"MaxEvaluationCost": "100000"})
+        w = Worker(ctx.scratch("w"), timeout=20, mudlib_files=FILES, conf={"MaxEvaluationCost": "300000"})
         _workers[ctx.rundir] = w
         r = w.run([["load", "t/c05.c"], ["call", "t/c05", "probe"]])
         pr = r.step(1)
